@@ -33,6 +33,13 @@ def check(prog: Program, rep: Report) -> None:
     creator_names = {fn.name for fn in creators}
     absorbed = {n for n in creator_names if n.startswith("_") and any(n in raw_self_calls(m) for m in creator_names - {n})
                 and not any(n in raw_self_calls(m) for m in cls.methods if m not in creator_names)}
+    # ... and so is any private helper whose every caller is a creator or such a helper (it runs only as part of a creation routine)
+    for _ in range(4):
+        for n in cls.methods:
+            if n.startswith("_") and not n.startswith("__") and n not in absorbed and n not in creator_names - absorbed:
+                callers = {m for m in cls.methods if n in raw_self_calls(m)}
+                if callers and callers <= (creator_names | absorbed):
+                    absorbed.add(n)
     creators = [fn for fn in creators if fn.name not in absorbed]
     if len(creators) < 2:
         raise AnalysisError("TagActivator: the two get_event_handlers_to_run variants were not found")
@@ -106,7 +113,12 @@ def check(prog: Program, rep: Report) -> None:
         base_ = loop.iter
         while isinstance(base_, ast.Subscript):
             base_ = base_.value
-        iter_ok = isinstance(loop.iter, ast.Subscript) and self_attr(base_) is not None       # an entry of a table kept by the activator
+        root_ = base_
+        while isinstance(root_, ast.Attribute):
+            root_ = root_.value
+        # an entry of a table kept by the activator (directly in an attribute, or in a field of a record kept in an attribute)
+        iter_ok = isinstance(loop.iter, ast.Subscript) and (self_attr(base_) is not None or
+                                                             (isinstance(root_, ast.Name) and root_.id == "self" and isinstance(base_, ast.Attribute)))
         # symbolic execution of one iteration over list values: running[t] = (R0,), not_running[t] = (N0,), every local list
         # that exists before the loop = (<name>0,).  Afterwards running[t] must be empty, not_running[t] = N0 + R0 and exactly
         # one local list must have gained R0 (the collected handlers); aliases of the running list are followed.
